@@ -451,6 +451,10 @@ pub struct L2Knobs {
     /// avoidance constraints derived from known findings
     #[serde(default)]
     pub avoid: Vec<String>,
+    /// exactly one compaction, before session op number `compact_at`: add-only statements
+    /// before it, no property removal after it (keeps clear of the compaction findings F06-F10)
+    #[serde(default)]
+    pub compact_at: Option<usize>,
 }
 
 impl L2Knobs {
@@ -639,7 +643,30 @@ pub fn gen_session(rng: &mut Rng, k: &L2Knobs) -> Vec<SOp> {
     let mut g = L2Gen { next_id: 0, used_edges: BTreeSet::new() };
     let mut uniq = 100i64;
     let mut out = Vec::new();
-    while out.len() < k.n_ops {
+    let base = k;
+    let mut pre = k.clone();
+    for i in [3, 5, 6, 7, 8, 9, 13] {
+        pre.w_stmt[i] = 0;
+    }
+    let mut post = k.clone();
+    for i in [3, 6] {
+        post.w_stmt[i] = 0;
+    }
+    let mut compacted = false;
+    while out.len() < base.n_ops {
+        if let Some(p) = base.compact_at
+            && !compacted
+            && out.len() >= p
+        {
+            out.push(SOp::Compact);
+            compacted = true;
+            continue;
+        }
+        let k: &L2Knobs = match base.compact_at {
+            None => base,
+            Some(_) if compacted => &post,
+            Some(_) => &pre,
+        };
         let r = rng.f64();
         if k.reopen && r < 0.06 {
             out.push(SOp::Reopen);
